@@ -5,7 +5,7 @@ from hypothesis import strategies as st
 
 from .. import gen
 from ..common import TOL, graph_from_json, inconclusive, invalid_config, ok, violation
-from ..models import flow_of, run_model, solver_artifact, timed_out
+from ..models import ConstraintSpec, flow_of, run_model, solver_artifact, timed_out
 from ..oracle import bf
 from ..oracle.routes import all_st_paths, check_route
 
@@ -88,7 +88,7 @@ def constraint_predicate(routes, constraints, coverage, node_mode, lengths=None)
     return pred
 
 
-def _planted_is_witness(G, planted, f_req, constraints, coverage, node_mode, wt, lengths=None):
+def _planted_is_witness(G, planted, f_req, spec, node_mode, wt):
     """Re-validate the generator's witness (shrunk replay files may carry a stale one)."""
     try:
         acc = Counter()
@@ -99,8 +99,7 @@ def _planted_is_witness(G, planted, f_req, constraints, coverage, node_mode, wt,
                 acc[el] += w
         if any(abs(acc.get(el, 0) - fe) > 1e-9 for el, fe in f_req.items()):
             return False
-        pred = constraint_predicate([list(p) for p, _w in planted], constraints, coverage, node_mode, lengths)
-        return pred is None or pred(tuple(range(len(planted))))
+        return spec.unmet([list(p) for p, _w in planted]) is None
     except Exception:
         return False
 
@@ -132,14 +131,10 @@ def run_case(case, tier="quick"):
     f_req = {el: v for el, v in f.items() if el not in ignored}
     if not f_req:
         return invalid_config("no non-ignored weighted element")
-    constraints = kw.get("subpath_constraints", [])
-    coverage = kw.get("subpath_constraints_coverage", 1.0)
-    lengths = None
-    if kw.get("subpath_constraints_coverage_length") is not None:
-        if node_mode or kw.get("length_attr") != "len":
-            return invalid_config("length coverage only generated for edge mode with attribute 'len'")
-        coverage = kw["subpath_constraints_coverage_length"]
-        lengths = {(u, v): d.get("len", 1) for u, v, d in G.edges(data=True)}
+    spec = ConstraintSpec(case, G)
+    constraints, coverage = spec.constraints, spec.coverage
+    lengths = spec.lengths
+    if spec.by_length:
         labels.add("length_coverage")
     if constraints:
         labels.add("constraints")
@@ -166,7 +161,7 @@ def run_case(case, tier="quick"):
         if not (r2.ctor_error or r2.solve_error) and r2.solved:
             return inconclusive("failure only with the harness-reduced scanning window", labels)
         r = r2
-    witness = bool(meta.get("planted")) and _planted_is_witness(G, meta["planted"], f_req, constraints, coverage, node_mode, wt, lengths)
+    witness = bool(meta.get("planted")) and _planted_is_witness(G, meta["planted"], f_req, spec, node_mode, wt)
     if not witness and (r.ctor_error or r.solve_error or not r.solved):
         return invalid_config("no valid planted witness in the case: decomposability unknown")
     if r.ctor_error:
@@ -201,8 +196,7 @@ def run_case(case, tier="quick"):
         return violation("negative_weight", f"{weights}", labels)
     # constraints honoured
     for c in constraints:
-        p1 = constraint_predicate(paths, [c], coverage, node_mode, lengths)
-        if not p1(tuple(range(len(paths)))):
+        if not any(spec.met_by(c, spec.elements_of(p_)) for p_ in paths):
             return violation("constraint_not_covered", f"constraint {c} (coverage {coverage}{' by length' if lengths else ''}) in no single path of {paths}", labels, facts=facts)
     n = len(paths)
     facts["reported"] = n
@@ -223,7 +217,7 @@ def run_case(case, tier="quick"):
     exhaustive = False
     if all_paths is not None and n >= 1:
         route_mults = [Counter(p) if node_mode else Counter(zip(p[:-1], p[1:])) for p in all_paths]
-        pred = constraint_predicate(all_paths, constraints, coverage, node_mode, lengths)
+        pred = spec.predicate([spec.elements_of(p_) for p_ in all_paths])
         found, wit = bf.exists_fd_with_at_most(route_mults, n - 1, f_req, wt, pred)
         exhaustive = True
         if found:
